@@ -234,13 +234,14 @@ def rule_r4(chk, db, tier):
     r = subprocess.run(["cargo", "+nightly", "test", "--doc", "--offline"], cwd=w, env=env, stdout=subprocess.PIPE, stderr=subprocess.STDOUT, text=True)
     out = r.stdout
     import re
-    res = re.findall(r"test (\S+) - (\S+) \(line (\d+)\)( - compile fail)? \.\.\. (\w+)", out)
+    res = re.findall(r"test (\S+) - (\S+) \(line (\d+)\)( - compile fail| - compile)? \.\.\. (\w+)", out)
     n = 0
     for path, item, line, cf, verdict in res:
         n += 1
+        cf = cf.strip() == "- compile fail"
         chk.verdict(verdict == "ok", "R4", "%s@%s%s" % (item, line, "[compile_fail]" if cf else "[twin]"), "witness/src/lib.rs:%s" % line,
                     "witness doctest %s (line %s) %s" % (item, line, verdict), nontrivial=False)
-    chk.floor("R4", n, 8, "witness doctests executed (compile_fail + compiling twins)")
+    chk.floor("R4", n, 14, "witness doctests compiled (7 compile_fail + 7 compiling `no_run` twins)")
     if r.returncode != 0 and not res:
         chk.anchor_missing("R4", "witness crate failed to build: %s" % out[-400:])
 
